@@ -157,6 +157,7 @@ def fmtLoad (c : Cfg) (withClass : Bool) : LoadRes → String
   | .reject cls =>
     if withClass || cls == "quota" || cls == "url" || c.flows.length ≤ 1 then "reject:" ++ cls else "reject"
   | .crash => "crash:stack-overflow"
+  | .hang => "timeout"
 
 def fmtTxn (r : TxnRes) : String :=
   let n := toString (steps r.trace)
